@@ -6,12 +6,16 @@ import (
 	"strings"
 
 	"github.com/iotaledger/hive.go/ds/onchangemap"
+	"github.com/iotaledger/hive.go/runtime/options"
 )
 
-// OnChangeMap vs a Go map plus a callback log: every successful add/modify/delete is
-// mirrored by one "changed" callback (carrying the new content) and one item callback;
-// nothing is called while callbacks are disabled, for failed operations, or when Modify's
-// callback returns false. The order of the two callbacks of one operation is not demanded.
+// OnChangeMap vs a Go map plus a callback log. Every subset of the four callback options
+// is a configuration. While callbacks are enabled, every successful add/modify/delete is
+// mirrored by one "changed" callback carrying the new content (if that one is configured,
+// independent of which item callbacks exist) and by the item callback of its kind (if that
+// one is configured); nothing is called while callbacks are disabled, for failed operations,
+// or when Modify's callback returns false. The order of the two callbacks of one operation
+// is not demanded.
 
 type ocID int
 
@@ -32,11 +36,13 @@ const ocIDs = 5
 
 type ocMachine struct {
 	real       *onchangemap.OnChangeMap[int, ocID, *ocItem]
-	model      map[int]int
-	registered bool
-	enabled    bool
-	log        []string
+	model   map[int]int
+	mask    string // which callbacks are configured: c(hanged) a(dded) m(odified) d(eleted), '-' = not configured
+	enabled bool
+	log     []string
 }
+
+func (m *ocMachine) has(kind byte) bool { return strings.IndexByte(m.mask, kind) >= 0 }
 
 func ocSnapshot(items []*ocItem) string {
 	s := make([]string, 0, len(items))
@@ -59,7 +65,7 @@ func (m *ocMachine) modelSnapshot() string {
 func init() {
 	register(&def{
 		name:    "onchangemap",
-		configs: []string{"callbacks=on", "callbacks=initially-off", "callbacks=none-registered"},
+		configs: ocConfigs(),
 		table: func(string) []opSpec {
 			return []opSpec{
 				{N: "Add", W: 8, Args: []int{ocIDs, 50}},
@@ -71,51 +77,90 @@ func init() {
 			}
 		},
 		mk: func(cfg string) machine {
-			m := &ocMachine{model: map[int]int{}}
-			if cfg == "callbacks=none-registered" {
-				m.real = onchangemap.NewOnChangeMap[int, ocID, *ocItem]()
-			} else {
-				m.registered = true
-				m.real = onchangemap.NewOnChangeMap(
-					onchangemap.WithChangedCallback[int, ocID](func(items []*ocItem) error {
-						m.log = append(m.log, "changed:"+ocSnapshot(items))
-						return nil
-					}),
-					onchangemap.WithItemAddedCallback[int, ocID](func(it *ocItem) error {
-						m.log = append(m.log, fmt.Sprintf("added:%d=%d", it.id, it.val))
-						return nil
-					}),
-					onchangemap.WithItemModifiedCallback[int, ocID](func(it *ocItem) error {
-						m.log = append(m.log, fmt.Sprintf("modified:%d=%d", it.id, it.val))
-						return nil
-					}),
-					onchangemap.WithItemDeletedCallback[int, ocID](func(it *ocItem) error {
-						m.log = append(m.log, fmt.Sprintf("deleted:%d=%d", it.id, it.val))
-						return nil
-					}),
-				)
+			// cfg = "cb=<mask>,start=on|off"
+			m := &ocMachine{model: map[int]int{}, mask: cfg[3:7]}
+			type opt = options.Option[onchangemap.OnChangeMap[int, ocID, *ocItem]]
+			var opts []opt
+			if m.has('c') {
+				opts = append(opts, onchangemap.WithChangedCallback[int, ocID](func(items []*ocItem) error {
+					m.log = append(m.log, "changed:"+ocSnapshot(items))
+					return nil
+				}))
 			}
-			if cfg == "callbacks=on" {
+			if m.has('a') {
+				opts = append(opts, onchangemap.WithItemAddedCallback[int, ocID](func(it *ocItem) error {
+					m.log = append(m.log, fmt.Sprintf("added:%d=%d", it.id, it.val))
+					return nil
+				}))
+			}
+			if m.has('m') {
+				opts = append(opts, onchangemap.WithItemModifiedCallback[int, ocID](func(it *ocItem) error {
+					m.log = append(m.log, fmt.Sprintf("modified:%d=%d", it.id, it.val))
+					return nil
+				}))
+			}
+			if m.has('d') {
+				opts = append(opts, onchangemap.WithItemDeletedCallback[int, ocID](func(it *ocItem) error {
+					m.log = append(m.log, fmt.Sprintf("deleted:%d=%d", it.id, it.val))
+					return nil
+				}))
+			}
+			m.real = onchangemap.NewOnChangeMap[int, ocID, *ocItem](opts...)
+			if strings.HasSuffix(cfg, "start=on") {
 				m.real.CallbacksEnabled(true)
 				m.enabled = true
 			}
 			return m
 		},
-		require: map[string]int{"mirrored_changes": 5000, "silent_changes": 3000, "modify_declined": 500},
+		require: map[string]int{"mirrored_changes": 5000, "silent_changes": 3000, "modify_declined": 500, "changed_without_item_callback": 1500, "item_without_changed_callback": 1500, "toggled_during_history": 500, "\x00onchangemap_masks": 16},
 	})
 }
 
+// ocConfigs enumerates every subset of the four callbacks x callbacks initially enabled/disabled
+// (CallbacksEnabled operations toggle it during the history in both cases).
+func ocConfigs() []string {
+	var out []string
+	for bits := 0; bits < 16; bits++ {
+		mask := []byte("----")
+		for i, ch := range []byte("camd") {
+			if bits&(1<<i) != 0 {
+				mask[i] = ch
+			}
+		}
+		out = append(out, "cb="+string(mask)+",start=on", "cb="+string(mask)+",start=off")
+	}
+	return out
+}
+
+var ocKindLetter = map[string]byte{"added": 'a', "modified": 'm', "deleted": 'd'}
+
+// expectLog returns the callbacks an effective add/modify/delete must produce (model already updated).
 func (m *ocMachine) expectLog(x *hx, kind string, id, val int) []string {
+	x.mark("onchangemap_masks", m.mask)
 	if !m.enabled {
 		x.note("silent_changes")
 		return nil
 	}
-	if !m.registered {
-		x.note("silent_changes")
-		return nil
+	var want []string
+	item := m.has(ocKindLetter[kind])
+	if m.has('c') {
+		want = append(want, "changed:"+m.modelSnapshot())
+		if !item {
+			x.note("changed_without_item_callback")
+		}
 	}
-	x.note("mirrored_changes")
-	return []string{"changed:" + m.modelSnapshot(), fmt.Sprintf("%s:%d=%d", kind, id, val)}
+	if item {
+		want = append(want, fmt.Sprintf("%s:%d=%d", kind, id, val))
+		if !m.has('c') {
+			x.note("item_without_changed_callback")
+		}
+	}
+	if len(want) == 0 {
+		x.note("silent_changes")
+	} else {
+		x.note("mirrored_changes")
+	}
+	return want
 }
 
 func (m *ocMachine) step(x *hx, o op) {
@@ -188,13 +233,16 @@ func (m *ocMachine) step(x *hx, o op) {
 			res.val = -7 // must be a copy
 		}
 	case "CallbacksEnabled":
+		if m.enabled != (o.arg(0) == 1) {
+			x.note("toggled_during_history")
+		}
 		m.enabled = o.arg(0) == 1
 		m.real.CallbacksEnabled(m.enabled)
 	case "ExecuteChangedCallback":
 		if err := m.real.ExecuteChangedCallback(); err != nil {
 			x.failOp("wrong-error", "ExecuteChangedCallback() = %v", err)
 		}
-		if m.enabled && m.registered {
+		if m.enabled && m.has('c') {
 			want = []string{"changed:" + m.modelSnapshot()}
 		}
 	}
@@ -212,7 +260,7 @@ func (m *ocMachine) step(x *hx, o op) {
 		case len(got) == 0:
 			sym = "missing-callbacks"
 		}
-		x.failOp(sym, "callbacks [%s], expected [%s] (enabled=%v registered=%v)", strings.Join(got, " | "), strings.Join(want, " | "), m.enabled, m.registered)
+		x.failOp(sym, "callbacks [%s], expected [%s] (enabled=%v configured callbacks=%s)", strings.Join(got, " | "), strings.Join(want, " | "), m.enabled, m.mask)
 		return
 	}
 	m.log = m.log[:0]
@@ -252,8 +300,14 @@ func (m *ocMachine) drain(x *hx) {
 			return
 		}
 		delete(m.model, k)
-		if m.registered {
-			want := []string{"changed:" + m.modelSnapshot(), fmt.Sprintf("deleted:%d=%d", k, v)}
+		{
+			var want []string
+			if m.has('c') {
+				want = append(want, "changed:"+m.modelSnapshot())
+			}
+			if m.has('d') {
+				want = append(want, fmt.Sprintf("deleted:%d=%d", k, v))
+			}
 			got := append([]string(nil), m.log...)
 			sort.Strings(got)
 			sort.Strings(want)
